@@ -95,6 +95,9 @@ def judge(ex, ref, case):
             monitored = False
         elif e[0] == "msg" and e[1].command == "_start_suspender":
             susp += 1
+        elif e[0] == "call" and e[1] == "resume":
+            # pausing and resuming a suspended plan is the documented way of taking manual control: the hold is over
+            susp = 0
         elif e[0] == "msg" and e[1].command == "_resume_from_suspender":
             susp = max(0, susp - 1)
         elif e[0] == "dev" and e[1] == "sig" and e[2] == "put":
